@@ -3,7 +3,7 @@
 # Negative control: applies behaviour-preserving refactorings (all given patches together) to a scratch worktree of
 # /repo HEAD and runs EVERY property's quick check against it (scratch harness / work / out / evidence, as in
 # try_mutant_wt.sh).  Every check must exit 0: an alarm here is a false alarm of the machinery.
-# Result lines "<name> <Cxx> rc=<n>" -> work/audit/refactor_<name>.log
+# Result lines "<name> <Cxx> rc=<n>" -> work/audit/refactor_<name>.log and audit/refactor_<name>.json
 name="$1"; slot="$2"; shift 2
 WT=/tmp/wt/try_$slot; H=/tmp/wt/h_$slot; F=/tmp/wt/f_$slot; W=/tmp/wt/w_$slot
 git -C /repo worktree remove --force $WT 2>/dev/null
@@ -24,4 +24,13 @@ for k in $(seq -w 1 20); do
   if [ $rc -ne 0 ]; then bad=1; cp $W/$name.C$k.log /verif/work/audit/; fi
 done
 git -C /repo worktree remove --force $WT
+python3 - "$name" "$log" "$@" <<'PY'
+import json, sys, re
+name, log, patches = sys.argv[1], sys.argv[2], sys.argv[3:]
+rows = [re.match(r"(\S+) (C\d+) rc=(\d+)", l) for l in open(log)]
+res = {m.group(2): int(m.group(3)) for m in rows if m}
+json.dump({"set": name, "patches": patches, "tier": "quick", "exit_by_property": res,
+           "false_alarms": [p for p, rc in res.items() if rc == 1], "tool_errors": [p for p, rc in res.items() if rc == 2]},
+          open("/verif/audit/refactor_%s.json" % name, "w"), indent=1)
+PY
 exit $bad
